@@ -309,18 +309,17 @@ def glob_match(string, pattern):
             string_index += 1
             continue
         if c == "*":
-            while (pattern_index != pattern_len) and (c == "*"):
-                c = pattern[pattern_index]
+            while (pattern_index != pattern_len) and (pattern[pattern_index] == "*"):
                 pattern_index += 1
             if pattern_index == pattern_len:
                 return string.find("/", string_index) == -1
             else:
-                if c == "/":
+                if pattern[pattern_index] == "/":
                     string_index = string.find("/", string_index)
                     if string_index == -1:
                         return False
                     else:
-                        string_index += 1
+                        continue
             # General case, use recursion.
             while string_index != string_len:
                 if glob_match(string[string_index:], pattern[pattern_index:]):
@@ -328,7 +327,7 @@ def glob_match(string, pattern):
                 if string[string_index] == "/":
                     break
                 string_index += 1
-            continue
+            return False
         if c == "[":
             if string_index == string_len:
                 return False
